@@ -16,12 +16,14 @@
     Phi.lean      uninterpreted scalar functions (exp, log, sigmoid, …): mapData_sem, readAt_mapData, binary_/eagerReduce_/subsNum_/getitem_mapData_sem, atAll_mapData
     Independent.lean  pevalR_sound, independent_sem (diagonal extraction + body + sum)
     Reshape.lean  allIdx_ravel, reshape_self, reshapeS_sem_partial (the arg.shape == shape shortcut)
+    Aggregates.lean  reductionWith_sem (any aggregate), reduceAxesWith_scalar, reductionWith_scalar_sem, aggAny_single
     Total.lean    peval_total_core, core_complete_and_sound (typing commutes with evaluation)
   This file: non-vacuity examples.
 -/
 import FunsorVerif.Props.C01.Total
 import FunsorVerif.Props.C01.Einsum
 import FunsorVerif.Props.C01.Reshape
+import FunsorVerif.Props.C01.Aggregates
 namespace FV.Props.C01
 open FV FV.C01
 
